@@ -118,10 +118,24 @@ func Truth(v Value) bool {
 // args, pushing the result to the continuation next.
 func Metacall(t *Thread, obj Value, method string, args []Value, next Cont) (error, bool) {
 	if f := t.metaGetS(obj, method); !f.IsNil() {
+		if method == "__close" {
+			// A pending to-be-closed value is closed exactly once on every
+			// exit, also when the scope is left because the nesting of Lua
+			// runs hit its limit: the call of the handler itself may go
+			// (boundedly) beyond that limit.  Nested runs started by the
+			// handler are refused as usual.
+			t.reentryHeadroom = closeHandlerHeadroom
+		}
 		return Call(t, f, args, next), true
 	}
 	return nil, false
 }
+
+// closeHandlerHeadroom is how many nested Lua runs beyond
+// maxGoFunctionCallDepth are granted to calls of __close metamethods (a
+// handler that is itself being unwound may have to-be-closed values of its
+// own).
+const closeHandlerHeadroom = 16
 
 // Continue tries to continue the value f or else use its '__call'
 // metamethod and returns the continuations that needs to be run to get the
@@ -163,9 +177,11 @@ func Call(t *Thread, f Value, args []Value, next Cont) error {
 	// The call runs in a nested RunContinuation, so it uses Go stack: bound
 	// the nesting (e.g. a metamethod that triggers itself) with an ordinary
 	// error rather than an irrecoverable Go stack overflow.
+	limit := maxGoFunctionCallDepth + t.reentryHeadroom
+	t.reentryHeadroom = 0
 	t.luaReentryDepth++
 	defer func() { t.luaReentryDepth-- }()
-	if t.luaReentryDepth > maxGoFunctionCallDepth {
+	if t.luaReentryDepth > limit {
 		return errors.New("stack overflow")
 	}
 	callable, ok := f.TryCallable()
